@@ -198,6 +198,8 @@ def run_ladim(conf_file: Path, cwd: Path | None = None) -> RunResult:
 
 
 def output_files(conf: dict[str, Any]) -> list[Path]:
+    if "filename" not in conf.get("output", {}):
+        return []
     fn = Path(conf["output"]["filename"])
     if conf["output"].get("numrec"):
         stem = fn.stem
